@@ -579,6 +579,38 @@ func c20ResultsMuts() []c20Mut {
 	return out
 }
 
+// c20OtherStoreMut: replace value and proof by what the first other store (in name order) that answers the requested
+// key differently (other value, or present vs absent) holds at the response height. Not applicable when no store
+// does. keyless: the last (store-level) operator is re-encoded as the key-less c20StepOp.
+func c20OtherStoreMut(name string, keyless bool) c20Mut {
+	return c20Mut{Name: name, Class: c20Committed, F: func(res interface{}, ch *c20Chain) bool {
+		q := &res.(*ctypes.ResultABCIQuery).Response
+		snap := ch.app.history[q.Height]
+		if snap == nil || q.ProofOps == nil || len(q.ProofOps.Ops) != 2 {
+			return false
+		}
+		store, key := string(q.ProofOps.Ops[1].Key), q.ProofOps.Ops[0].Key
+		own, ownHas := snap.stores[store][string(key)]
+		for _, other := range snap.storeNames() {
+			v, has := snap.stores[other][string(key)]
+			if other == store || (has == ownHas && v == own) {
+				continue
+			}
+			q.Value = nil
+			if has {
+				q.Value = []byte(v)
+			}
+			ops := c20StoreProof(snap, other, key)
+			if keyless {
+				ops[1] = c20AsStepOp(ops[1])
+			}
+			q.ProofOps = &tmcrypto.ProofOps{Ops: ops}
+			return true
+		}
+		return false
+	}}
+}
+
 func c20QueryMuts() []c20Mut {
 	mk := func(name string, class int, f func(q *abci.ResponseQuery) bool) c20Mut {
 		return c20Mut{Name: name, Class: class, F: func(res interface{}, _ *c20Chain) bool { return f(&res.(*ctypes.ResultABCIQuery).Response) }}
@@ -611,6 +643,12 @@ func c20QueryMuts() []c20Mut {
 			q.ProofOps.Ops[1] = merkle.NewValueOp(q.ProofOps.Ops[1].Key, p2[0]).ProofOp()
 			return true
 		}),
+		// the genuine answer (and genuine hash chain to the trusted AppHash) of ANOTHER store that answers the
+		// same key differently: with the store-level operator as the application serves it (keyed with the other
+		// store's name), and with the store level served as a key-less step, which leaves the store element of
+		// the key path unconsumed.
+		c20OtherStoreMut("Response.Value&ProofOps:=other-store's-answer", false),
+		c20OtherStoreMut("Response.Value&ProofOps:=other-store's-answer,store-level-op-key-less", true),
 		mk("Response.Height+1", c20Committed, func(q *abci.ResponseQuery) bool { q.Height++; return true }),
 		mk("Response.Height-1", c20Committed, func(q *abci.ResponseQuery) bool { q.Height--; return true }),
 		mk("Response.ProofOps:drop-first", c20Committed, func(q *abci.ResponseQuery) bool {
